@@ -1,6 +1,6 @@
 (* C16 - sink and visitor errors are reported to the caller, promptly and unchanged.
    Statements only; proofs are in Cbor/EncProofs.v. *)
-From SF Require Import Base.Prelude Core.Events Cbor.Enc Cbor.EncProofs.
+From SF Require Import Base.Prelude Core.Events Core.EventsProofs Core.AdapterProofs Cbor.Enc Cbor.EncProofs Json.Enc Json.EncProofs.
 
 (* CBOR encoder, every call sequence and every failure index k: when the writer
    fails at its k-th write (0-based) and keeps failing, and nevertheless every
@@ -10,3 +10,31 @@ Theorem C16_cbor_enc : forall evs e' k,
   cbor_run (cenc0 (Some k)) evs 0 = (e', None) -> (w_n (ce_w e') <= k)%nat.
 Proof. exact C16_cbor_enc0. Qed.
 Print Assumptions C16_cbor_enc.
+
+(* JSON encoder, every option setting, float formatter, call sequence and failure index:
+   the same statement, and a call that fails returns either the writer's error (class 99)
+   or the refusal of a non-finite float (class 1) - nothing else, nothing swallowed. *)
+Theorem C16_json_enc : forall (ffmt : Z -> Z -> bytes) cfg evs e' k,
+  json_run cfg ffmt (jenc0 (Some k)) evs 0 = JRun e' None -> (w_n (je_w e') <= k)%nat.
+Proof. exact C16_json_enc0. Qed.
+Print Assumptions C16_json_enc.
+
+Theorem C16_json_enc_error_unchanged : forall (ffmt : Z -> Z -> bytes) cfg evs e i e' j err,
+  json_run cfg ffmt e evs i = JRun e' (Some (j, err)) ->
+  err = 99 \/ (err = 1 /\ ignore_invalid cfg = false).
+Proof. exact C16_json_err_class_strong. Qed.
+Print Assumptions C16_json_enc_error_unchanged.
+
+(* Adapters (extended event -> basic events for a plain visitor), for every extended
+   event, every visitor state and every failure index: the visitor receives a prefix of
+   the expansion; if the adapter returns nil it is the whole expansion and no call failed;
+   if it returns the error, the last call made is the first failing one (index
+   max k (s_n s)) - no event is delivered after the visitor failed. *)
+Theorem C16_adapter : forall e s s' ok, adapter s e = (s', ok) ->
+  exists pre, s_log s' = s_log s ++ pre /\ (exists suf, expand e = pre ++ suf) /\
+    s_n s' = (s_n s + length pre)%nat /\ s_fail s' = s_fail s /\
+    (ok = true -> pre = expand e /\ forall k, s_fail s = Some k -> (s_n s' <= k)%nat) /\
+    (ok = false -> exists k, s_fail s = Some k /\ s_n s' = S (Nat.max k (s_n s)) /\
+        length pre = S (k - s_n s) /\ (k < s_n s + length (expand e))%nat).
+Proof. exact AdapterProofs.C16_adapter. Qed.
+Print Assumptions C16_adapter.
